@@ -17,6 +17,7 @@ import (
 	"verif/lib/gen"
 	"verif/lib/ref"
 	"verif/lib/rep"
+	vstore "verif/lib/store"
 )
 
 type op struct {
@@ -364,9 +365,81 @@ func (w *world) observe(r *rep.Report, changed bool) {
 	}
 }
 
+// faultyRemoval: a rule is disabled and its removal fails half-way (the k-th storage call of
+// RemRule reports a failure).  Whatever is left, a rule that was disabled and never enabled
+// again does not fire, neither in the live location nor after a reload; a removal that is
+// retried and succeeds leaves neither rule nor flag.
+func faultyRemoval(r *rep.Report) {
+	for _, kind := range drv.Kinds {
+		for _, sched := range []bool{false, true} {
+			for k := 1; k <= 4; k++ {
+				inner := drv.MustMem()
+				w := vstore.New(inner)
+				loc, err := drv.NewLoc("F", kind, w)
+				if err != nil {
+					r.Violate("", "cannot build location", nil)
+					return
+				}
+				ctx := drv.Ctx()
+				rm := ruleMap("r1", "v1")
+				ev := core.Map{"e": "r1"}
+				if sched {
+					rm = schedRuleMap("r1", "v1")
+					ev = core.Map{"trigger!": "r1"}
+				}
+				loc.AddRule(ctx, "r1", rm)
+				loc.EnableRule(ctx, "r1", false)
+				w.FailAt = w.NCalls() + k
+				_, rerr := loc.RemRule(ctx, "r1")
+				w.FailAt = 0
+				fires := func(l *core.Location) string {
+					fr, _ := l.ProcessEvent(drv.Ctx(), core.Map(ref.CloneMap(ev)))
+					if fr == nil {
+						return ""
+					}
+					return fmt.Sprint(fr.Values)
+				}
+				live := fires(loc)
+				loc2, lerr := drv.NewLoc("F", kind, vstore.MemFrom(vstore.CopyState(inner.State(drv.Ctx()))))
+				reloaded := ""
+				if lerr == nil {
+					reloaded = fires(loc2)
+				}
+				r.Case(true, fmt.Sprint("faulty-removal", kind, sched, k))
+				r.Count("faulty_removals", 1)
+				wit := rep.J{"state": kind, "scheduled_rule": sched, "failing_storage_call_of_RemRule": k, "RemRule_error": drv.ErrStr(rerr), "values_live": live, "values_reloaded": reloaded}
+				if live != "[]" && live != "" || reloaded != "[]" && reloaded != "" {
+					r.Violate("", "a disabled rule fired after its removal failed half-way (the disabled flag went before the rule)", wit)
+					continue
+				}
+				if rerr != nil {
+					// the retry goes through
+					if _, err := loc.RemRule(drv.Ctx(), "r1"); err != nil && !strings.Contains(err.Error(), "not found") {
+						wit["retry_error"] = err.Error()
+						r.Violate("", "retrying the failed removal fails: "+err.Error(), wit)
+						continue
+					}
+					if _, err := loc.GetRule(drv.Ctx(), "r1"); err == nil {
+						r.Violate("", "the rule is still there after the retried removal", wit)
+					}
+					if en, _ := loc.RuleEnabled(drv.Ctx(), "r1"); !en {
+						// the flag outlived the rule: a rule re-added under the id would be born disabled
+						if _, gerr := loc.GetFact(drv.Ctx(), "!r1.disabled"); gerr == nil {
+							r.Violate("", "the disabled flag outlived the rule after the retried removal", wit)
+						}
+					}
+				}
+			}
+		}
+	}
+}
+
 func main() {
 	e := rep.GetEnv()
 	r := rep.New(e)
+	if e.Batch == 0 {
+		faultyRemoval(r)
+	}
 	nWalks := e.Pick(200, 1500)
 	for wi := 0; wi < nWalks; wi++ {
 		g := gen.New(e.BatchSeed()*49979687 + int64(wi))
